@@ -28,6 +28,10 @@ type rctx struct {
 	rReqAtStart bool
 	rSends   int // number of Sends on this context when the Recv started
 	sends    int
+	// pending Send (blocked because no peer is connected)
+	sg   *verif.G
+	serr error
+	stag byte
 }
 
 func (r *rctx) send(b []byte) error {
@@ -115,54 +119,27 @@ func VH03a_history() {
 	tag := byte(0)
 	rtag := byte(100)
 	for e := 0; e < E; e++ {
-		ev := verif.Choice("ev", 6)
+		ev := verif.Choice("ev", 7)
 		if e == 0 {
 			verif.Assume(ev == 0) // histories start with a request; the other starts are in VH03b
 		}
 		switch ev {
 		case 0: // Send on a context
 			r := cs[verif.Choice("ctx", 2)]
-			if r.closed {
+			if r.closed || r.sg != nil {
 				verif.Assume(false)
 			}
 			tag++
 			t := tag
-			var serr error
-			g := verif.Go("send", func() { serr = r.send([]byte{t}) })
-			verif.Quiesce()
-			live := false
-			for _, p := range pipes {
-				if !p.Closed {
-					live = true
-				}
-			}
-			if !live {
-				// no peer: a blocking Send legitimately waits; the history ends here
-				verif.Assert(!g.Done(), lab+"/send-returned-without-any-peer")
-				verif.Reach("send-blocks-without-peer")
-				return
-			}
-			verif.Assert(g.Done(), lab+"/send-completes-with-ready-peer")
-			if !g.Done() {
-				return
-			}
-			verif.Assert(serr == nil, lab+"/send-ok")
+			rr := r
+			r.stag = t
+			r.sg = verif.Go("send", func() { rr.serr = rr.send([]byte{t}) })
+			// the new Send abandons the previous request at once
 			if r.hasReq && r.cur != 0 {
 				r.stale = append(r.stale, r.cur)
 			}
 			r.sends++
-			r.hasReq, r.answered, r.reqTag = true, false, t
-			id, ok := findID(pipes, t)
-			verif.Assert(ok, lab+"/request-transmitted")
-			if ok {
-				verif.Assert(id&0x80000000 != 0, lab+"/request-id-has-top-bit")
-				for _, o := range cs {
-					if o != r {
-						verif.Assert(!(o.hasReq && o.cur == id), lab+"/request-ids-distinct")
-					}
-				}
-			}
-			r.cur = id
+			r.hasReq, r.answered, r.reqTag, r.cur = true, false, t, 0
 		case 1: // start Recv
 			r := cs[verif.Choice("ctx", 2)]
 			if r.rg != nil {
@@ -184,10 +161,10 @@ func VH03a_history() {
 			switch kind {
 			case 0:
 				id = cs[0].cur
-				verif.Assume(cs[0].hasReq)
+				verif.Assume(cs[0].hasReq && id != 0)
 			case 1:
 				id = cs[1].cur
-				verif.Assume(cs[1].hasReq)
+				verif.Assume(cs[1].hasReq && id != 0)
 			case 2:
 				r := cs[verif.Choice("stale-of", 2)]
 				verif.Assume(len(r.stale) > 0)
@@ -226,8 +203,52 @@ func VH03a_history() {
 			if !verif.FireTimer() {
 				verif.Assume(false)
 			}
+		case 6: // a new peer connects
+			if len(pipes) >= 3 {
+				verif.Assume(false)
+			}
+			pipes = append(pipes, side.Peer("pn"))
 		}
 		verif.Quiesce()
+		live := false
+		for _, p := range pipes {
+			if !p.Closed {
+				live = true
+			}
+		}
+		for _, r := range cs {
+			if r.sg == nil {
+				continue
+			}
+			if !r.sg.Done() {
+				// a blocking Send may only wait while no peer is connected (or the context was closed under it)
+				verif.Assert(!live, lab+"/send-blocks-with-ready-peer")
+				verif.Reach("send-blocks-without-peer")
+				continue
+			}
+			r.sg = nil
+			if r.closed {
+				continue
+			}
+			verif.Assert(r.serr == nil, lab+"/send-ok")
+			if r.serr != nil {
+				r.hasReq = false
+				continue
+			}
+			id, ok := findID(pipes, r.stag)
+			verif.Assert(ok, lab+"/request-transmitted")
+			if ok {
+				verif.Assert(id&0x80000000 != 0, lab+"/request-id-has-top-bit")
+				for _, o := range cs {
+					if o != r {
+						verif.Assert(!(o.hasReq && o.cur == id), lab+"/request-ids-distinct")
+					}
+				}
+				if r.reqTag == r.stag {
+					r.cur = id
+				}
+			}
+		}
 		checkRecvs(cs, lab)
 	}
 	verif.Reach("history-done")
@@ -384,5 +405,125 @@ func VH04a_resend() {
 	}
 	_ = rmsg
 	verif.Reach("done")
+	sock.Close()
+}
+
+// VH03b_requeue: directed family of histories around a request that is waiting
+// for re-transmission (no ready connection) when a newer Send replaces it:
+// Send A; A loses its connection or its retry timer fires while the only
+// connection is stalled; Send B on the same context; a connection becomes
+// available; replies with A's id, B's id or an arbitrary id arrive in any
+// order; Recv must return B's reply only.
+func VH03b_requeue() {
+	lab := "C03/requeue"
+	sock := vp.New("req")
+	retry := time.Duration(verif.Param("retry_ms", 1000)) * time.Millisecond
+	sock.SetOption(mangos.OptionRetryTime, retry)
+	side := vt.Listen(sock, "a")
+	p0 := side.Peer("p0")
+	pipes := []*vt.Pipe{p0}
+	useCtx := verif.Choice("ctx", 2) == 1
+	var c mangos.Context
+	if useCtx {
+		c, _ = sock.OpenContext()
+		c.SetOption(mangos.OptionRetryTime, retry)
+	}
+	send := func(b []byte) error {
+		if c != nil {
+			return c.Send(b)
+		}
+		return sock.Send(b)
+	}
+	recv := func() (*mangos.Message, error) {
+		if c != nil {
+			return c.RecvMsg()
+		}
+		return sock.RecvMsg()
+	}
+	verif.Assert(send([]byte{'A'}) == nil, lab+"/send-A")
+	verif.Quiesce()
+	idA, okA := findID(pipes, 'A')
+	verif.Assert(okA, lab+"/A-transmitted")
+	// fault: A has to be re-sent but nothing is ready
+	switch verif.Choice("fault", 3) {
+	case 0: // its connection goes away, no other peer
+		p0.Drop()
+	case 1: // the peer stalls, then the retry timer fires: the re-send is handed to the stalled connection
+		p0.SendMode = vt.SendBlock
+		verif.FireTimer()
+	case 2: // retry timer fires twice with a stalled peer: second re-send finds no ready connection
+		p0.SendMode = vt.SendBlock
+		verif.FireTimer()
+		verif.FireTimer()
+	}
+	verif.Quiesce()
+	var errB error
+	gB := verif.Go("send-B", func() { errB = send([]byte{'B'}) })
+	verif.Quiesce()
+	// a connection becomes available
+	switch verif.Choice("recover", 2) {
+	case 0:
+		pipes = append(pipes, side.Peer("p1"))
+	case 1:
+		if !p0.Closed {
+			p0.SendMode = vt.SendOK
+			for i := 0; i < 4; i++ {
+				p0.Release()
+			}
+		} else {
+			pipes = append(pipes, side.Peer("p1"))
+		}
+	}
+	verif.Quiesce()
+	verif.Assert(gB.Done(), lab+"/send-B-still-blocked-with-ready-peer")
+	if !gB.Done() {
+		return
+	}
+	verif.Assert(errB == nil, lab+"/send-B")
+	idB, okB := findID(pipes, 'B')
+	verif.Assert(okB, lab+"/B-transmitted")
+	if !okB {
+		return
+	}
+	verif.Assert(idB != idA, lab+"/request-ids-distinct")
+	var live *vt.Pipe
+	for _, p := range pipes {
+		if !p.Closed {
+			live = p
+		}
+	}
+	// replies: first one of {A's id, arbitrary id}, then B's
+	var m *mangos.Message
+	var rerr error
+	rg := verif.Go("recv", func() { m, rerr = recv() })
+	verif.Quiesce()
+	first := verif.Choice("first-reply", 3)
+	switch first {
+	case 0:
+		live.Deliver([]byte{byte(idA >> 24), byte(idA >> 16), byte(idA >> 8), byte(idA), 'a'})
+	case 1:
+		x := verif.Uint32("foreign-id")
+		verif.Assume(x != idB)
+		live.Deliver([]byte{byte(x >> 24), byte(x >> 16), byte(x >> 8), byte(x), 'x'})
+	case 2:
+	}
+	verif.Quiesce()
+	verif.Assert(!rg.Done(), lab+"/recv-returned-before-the-reply-to-the-current-request")
+	if rg.Done() {
+		if rerr == nil && len(m.Body) == 1 {
+			verif.Assert(m.Body[0] == 'b', lab+"/stale-or-foreign-reply-delivered")
+		}
+		return
+	}
+	live.Deliver([]byte{byte(idB >> 24), byte(idB >> 16), byte(idB >> 8), byte(idB), 'b'})
+	verif.Quiesce()
+	verif.Assert(rg.Done(), lab+"/reply-to-current-request-not-delivered")
+	if rg.Done() {
+		verif.Assert(rerr == nil, lab+"/recv-error")
+		if rerr == nil {
+			verif.Assert(len(m.Body) == 1 && m.Body[0] == 'b', lab+"/wrong-reply-delivered")
+		}
+	}
+	verif.Reach("requeue-checked")
 	sock.Close()
 }
